@@ -93,6 +93,12 @@ func (k msgServer) RotateValidatorByHalfRRTokenHolder(goCtx context.Context, msg
 		return nil, types.ErrTargetAddressAlreadyHasRotationHistory
 	}
 
+	// the target must not hold identity records of its own: moving the rotated address' records
+	// onto it would overwrite its address+key index entries and leave its records un-indexed
+	if len(k.gk.GetIdRecordsByAddress(ctx, sdk.MustAccAddressFromBech32(msg.Recovery))) > 0 {
+		return nil, types.ErrTargetAddressHasIdentityRecords
+	}
+
 	// set rotation history
 	k.SetRotationHistory(ctx, types.Rotation{
 		Address: msg.Address,
@@ -281,6 +287,12 @@ func (k msgServer) RotateRecoveryAddress(goCtx context.Context, msg *types.MsgRo
 	rotation := k.GetRotationHistory(ctx, msg.Recovery)
 	if rotation.Rotated != "" {
 		return nil, types.ErrTargetAddressAlreadyHasRotationHistory
+	}
+
+	// the target must not hold identity records of its own: moving the rotated address' records
+	// onto it would overwrite its address+key index entries and leave its records un-indexed
+	if len(k.gk.GetIdRecordsByAddress(ctx, sdk.MustAccAddressFromBech32(msg.Recovery))) > 0 {
+		return nil, types.ErrTargetAddressHasIdentityRecords
 	}
 
 	// set rotation history
